@@ -12,6 +12,8 @@ modes
                                                      the real _promote_branch_decls, with the iteration order of
                                                      `var_declared - base` dictated by the case
   sorted     {"lists": [[names]...]}                 CPython's sorted() on sets of names
+  threads    {"sources": [...], "threads": n, "rounds": r}
+                                                     the sources transpiled concurrently by n threads -> per source the distinct results
   ops        {"sources": [...], "ops": [[op, i], ...], "texts": bool}
                                                      a sequence of calls in this one process; one result per op:
                                                        ["t", i]  emit(parse(sources[i]))
@@ -100,6 +102,33 @@ def run_ops(srcs, ops, texts):
         else:
             raise SystemExit("unknown op " + str(op))
     return out
+
+
+def run_threads(srcs, n_threads, rounds):
+    """every source is transpiled `rounds` times by each of n_threads threads running at once (switch interval 10 us), each thread in
+    its own order -> per source the set of distinct results"""
+    import random
+    import threading
+    sys.setswitchinterval(1e-5)
+    seen = [set() for _ in srcs]
+    lock = threading.Lock()
+
+    def work(k):
+        order = list(range(len(srcs))) * rounds
+        random.Random(k).shuffle(order)
+        for i in order:
+            try:
+                sha = hashlib.sha256(emit(parse(srcs[i])).encode("utf-8")).hexdigest()
+            except BaseException as e:  # noqa
+                sha = "exc:" + type(e).__name__
+            with lock:
+                seen[i].add(sha)
+    ts = [threading.Thread(target=work, args=(k,)) for k in range(n_threads)]
+    for t in ts:
+        t.start()
+    for t in ts:
+        t.join()
+    return [sorted(x) for x in seen]
 
 
 def one(src, texts, per=20):
@@ -234,6 +263,8 @@ def main():
     elif mode == "session":
         srcs = req["sources"]
         out["results"] = [one(srcs[i], req.get("texts", False)) for i in req["script"]]
+    elif mode == "threads":
+        out["results"] = run_threads(req["sources"], req.get("threads", 4), req.get("rounds", 2))
     elif mode == "ops":
         out["results"] = run_ops(req["sources"], req["ops"], req.get("texts", False))
     elif mode == "promote":
